@@ -44,6 +44,83 @@ def _worker(args):
 from vf.harness import isolated as _isolated  # noqa: E402
 
 
+def run_parallel(work, jobs, case_limit_s):
+    """own process pool: one forked child per case with a hard wall-clock limit (a z3 query that ignores its timeout, or compiled code that hangs,
+    costs that case -- reported as inconclusive -- and nothing else).  Yields results as they complete; kills the rest when the consumer stops."""
+    import pickle
+    import select
+    import signal
+    pending = list(work)
+    running = {}  # fd -> (pid, case, t0, chunks)
+    try:
+        while pending or running:
+            while pending and len(running) < jobs:
+                w = pending.pop(0)
+                rd, wr = os.pipe()
+                pid = os.fork()
+                if pid == 0:
+                    try:
+                        os.close(rd)
+                        for fd_ in list(running):
+                            try:
+                                os.close(fd_)
+                            except OSError:
+                                pass
+                        out = _worker(w)
+                        with os.fdopen(wr, "wb") as f:
+                            f.write(pickle.dumps(out))
+                    finally:
+                        os._exit(0)
+                os.close(wr)
+                running[rd] = (pid, w[1], time.time(), [])
+            ready, _, _ = select.select(list(running), [], [], 1.0)
+            for fd in ready:
+                c = os.read(fd, 1 << 20)
+                pid, case, t0_, chunks = running[fd]
+                if c:
+                    chunks.append(c)
+                    continue
+                os.close(fd)
+                del running[fd]
+                try:
+                    os.waitpid(pid, 0)
+                except ChildProcessError:
+                    pass
+                try:
+                    yield pickle.loads(b"".join(chunks))
+                except Exception as e:  # noqa
+                    yield _crashed(case, f"worker died without a result ({e!r})")
+            now = time.time()
+            for fd in list(running):
+                pid, case, t0_, chunks = running[fd]
+                if now - t0_ > case_limit_s:
+                    try:
+                        os.kill(pid, signal.SIGKILL)
+                        os.waitpid(pid, 0)
+                    except (ProcessLookupError, ChildProcessError):
+                        pass
+                    os.close(fd)
+                    del running[fd]
+                    yield _crashed(case, f"case exceeded the wall-clock limit of {case_limit_s:.0f} s (a solver query ignored its timeout or compiled code hung)")
+    finally:
+        for fd, (pid, case, t0_, chunks) in running.items():
+            try:
+                os.kill(pid, signal.SIGKILL)
+                os.waitpid(pid, 0)
+            except (ProcessLookupError, ChildProcessError):
+                pass
+            try:
+                os.close(fd)
+            except OSError:
+                pass
+
+
+def _crashed(case, why):
+    return dict(case=case["name"], body=case["body"], kwargs_raw=case.get("kwargs", {}), paths=0, goals=0, unsat=0, sat=0, unknown=0, nontrivial=0, exc_paths=0,
+                reachable=0, solver_s=0.0, violations=[], samples=[], tags=[], stub_hits={}, validate={}, queries=0, feas_queries=0,
+                inconclusive=[dict(label="case-limit", why=why)], wall_s=0)
+
+
 def replay_record(rec, timeout=120):
     """run the real, unpatched code on the recorded float inputs (in a child process); returns (reproduced, message)"""
     return _isolated(_replay_record, (rec,), timeout, (False, "replay did not finish within the time limit"))
@@ -284,18 +361,14 @@ def main(argv=None):
             inconclusive.append((r["case"], dict(label="translator-validation", why=json.dumps(mm, default=str)[:600])))
 
     stopped_early = False
+    case_limit = float(os.environ.get("VERIF_CASE_LIMIT_S", "900" if a.tier != "thorough" else "3600"))
     if jobs > 1:
-        pool = mp.get_context("fork").Pool(jobs, maxtasksperchild=1)
-        try:
-            for r in pool.imap_unordered(_worker, work, chunksize=1):
-                results.append(r)
-                process(r)
-                if violations and os.environ.get("VERIF_KEEP_GOING", "0") != "1":
-                    stopped_early = True  # a replayed violation decides the check; the remaining cases are not needed for the verdict
-                    break
-        finally:
-            pool.terminate()
-            pool.join()
+        for r in run_parallel(work, jobs, case_limit):
+            results.append(r)
+            process(r)
+            if violations and os.environ.get("VERIF_KEEP_GOING", "0") != "1":
+                stopped_early = True  # a replayed violation decides the check; the remaining cases are not needed for the verdict
+                break
     else:
         for w_ in work:
             r = _worker(w_)
